@@ -70,8 +70,8 @@ Proof.
   induction n as [|m IH]; intros g allow_dev visible outer irv Hd Hwf Hs Hv Hirv.
   - rewrite gdepth_eq in Hd. lia.
   - pose proof (wf_graph_unpack _ _ _ Hwf) as W.
-    set (wfg' := fun g' => wf_graph true (visible ++ declared g) g' && ((gdepth g' <=? m)%nat || is_empty_graph g')).
-    destruct (graph_level g allow_dev visible outer irv (deser_graph (S m)) (ser_graph (S m) None)
+    set (wfg' := fun g' => wf_graph allow_dev (visible ++ declared g) g' && ((gdepth g' <=? m)%nat || is_empty_graph g')).
+    destruct (graph_level g allow_dev visible outer irv (deser_graph (S m)) (ser_graph (S m) irv)
                           Hwf Hs Hv Hirv wfg') as (inodes & Hdes & q & Hser & Hnorm).
     + (* nodes: nested graphs are well-formed and small *)
       apply forallb_forall. intros nd Hnd.
@@ -79,11 +79,10 @@ Proof.
       apply (wf_node_strengthen allow_dev _ _ _ nd Hwn).
       intros a Ha. exact (nested_depth g m nd a Hd Hnd Ha).
     + unfold wfg'. change (is_empty_graph empty_graph) with true. rewrite orb_true_r, andb_true_r.
-      destruct (visible ++ declared g); reflexivity.
+      destruct allow_dev; destruct (visible ++ declared g); reflexivity.
     + intros outer' g' Hs' Hv' Hw'. unfold wfg' in Hw'. apply andb_prop in Hw'. destruct Hw' as [Hw1 Hw2].
       apply orb_prop in Hw2. destruct Hw2 as [Hw2|Hw2].
-      * apply Nat.leb_le in Hw2. apply (IH g' true (visible ++ declared g) outer' None Hw2 Hw1 Hs' Hv').
-        intros _. exact I.
+      * apply Nat.leb_le in Hw2. exact (IH g' allow_dev (visible ++ declared g) outer' irv Hw2 Hw1 Hs' Hv' Hirv).
       * apply is_empty_graph_eq in Hw2. subst g'.
         eexists. split; [reflexivity|]. eexists. split; reflexivity.
     + exists (the_ig g inodes). split; [exact Hdes|]. exists q. split; [exact Hser | exact Hnorm].
